@@ -88,6 +88,7 @@ class Explorer:
         self.constraints = []
         self._decided = {}
         self._decided_keep = []
+        self._concretized = {}
         self.defs = {}                # id of constraint term -> defined fresh variable (definitional extensions)
         self.groups = {}              # id of assumption term -> group key (assumptions only relevant to one obligation group)
         self.model = None
@@ -276,7 +277,7 @@ class Explorer:
         return self.model
 
     # ------------------------------------------------------------------ branching
-    def decide(self, c, payload_fn=None):
+    def decide(self, c, payload_fn=None, use_memo=True):
         if isinstance(c, bool):
             return c
         c = z3.simplify(c)
@@ -284,7 +285,7 @@ class Explorer:
             return True
         if z3.is_false(c):
             return False
-        hit = self._decided.get(c.get_id())
+        hit = self._decided.get(c.get_id()) if use_memo else None
         if hit is not None:
             return hit          # the same condition was already decided on this path
         self.stats.decisions += 1
@@ -352,26 +353,36 @@ class Explorer:
         t = z3.simplify(t)
         if z3.is_int_value(t):
             return t.as_long()
+        done = self._concretized.get(t.get_id())
+        if done is not None:
+            return done[1]          # the same term was already concretised on this path
         while True:
-            if self.pos < len(self.stack) and len(self.stack[self.pos]) > 2:
+            replaying = self.pos < len(self.stack)
+            if replaying:
+                if len(self.stack[self.pos]) <= 2:
+                    raise BoundExceeded("non-deterministic re-execution (concretize_int met a plain decision entry)")
                 v = self.stack[self.pos][2]
             else:
                 m = self._ensure_model()
                 if m is None:
                     raise BoundExceeded("cannot concretise index: solver unknown")
                 v = m.eval(t, model_completion=True).as_long()
-            was_new = self.pos >= len(self.stack)
             p = self.pos
-            taken = self.decide(t == v)
-            if was_new and len(self.stack) > p and len(self.stack[p]) == 2:
-                self.stack[p].append(v)
+            # use_memo=False: every iteration must consume exactly one stack entry so that re-execution stays aligned
+            taken = self.decide(t == v, use_memo=False)
             if self.pos == p:
-                # decide() simplified to a constant
+                # t == v simplified to a constant
                 if taken:
-                    return v
+                    break
+                if replaying:
+                    raise BoundExceeded("non-deterministic re-execution (concretize_int)")
                 continue
+            if not replaying and len(self.stack) > p and len(self.stack[p]) == 2:
+                self.stack[p].append(v)
             if taken:
-                return v
+                break
+        self._concretized[t.get_id()] = (t, v)
+        return v
 
     def fork_bool(self, b):
         """concretise a SymBool / bool"""
